@@ -157,6 +157,14 @@ def run_session(case):
 
     rng = random.Random(case["seed"])
     settings, model = C.build_http_config(rng, keyname=case["key"], extras=False, allow_uri=case["allow_uri"])
+    legacy = case.get("legacy")
+    if legacy:
+        # configurations of older Cobalt Strike releases: no host header setting (< 4.0); no configurable verbs (< 3.5)
+        drop = {54} if legacy == "pre4.0" else {54, 26, 27}
+        settings = [st for st in settings if st[0] not in drop]
+        model["host_header"] = ""
+        if legacy == "pre3.5":
+            model["verb_get"], model["verb_post"] = "GET", "POST"
     cfg = beacon.BeaconConfig(tlv.encode(settings) + b"\0\0")
     key = R.load_key(case["key"])
     script = []
@@ -185,7 +193,11 @@ def run_session(case):
     try:
         c = cl.HttpBeaconClient()
         random.seed(case["seed"])
-        c.run(cfg, dry_run=True, beacon_id=case["beacon_id"], user="user", computer="HOST", process="p.exe")
+        try:
+            c.run(cfg, dry_run=True, beacon_id=case["beacon_id"], user="user", computer="HOST", process="p.exe")
+        except Exception as e:  # noqa: BLE001
+            obs["errors"].append(f"client set-up for a well-formed HTTP configuration raised {type(e).__name__}: {e}")
+            return cfg, model, key, c, peer, trace, obs
         for ev in case["history"]:
             kind = ev[0]
             if kind == "checkin":
@@ -200,7 +212,8 @@ def run_session(case):
                 random.seed(rng.getrandbits(32))
                 counter0 = c.counter
                 try:
-                    c.send_callback(BeaconCallback(ev[1]), ev[2])
+                    # the callback id is an int by signature; the enum member is an int too
+                    c.send_callback(BeaconCallback(ev[1]) if case["seed"] % 2 else int(ev[1]), ev[2])
                     obs["callbacks"].append((counter0 + 1, ev[1], ev[2]))
                 except Exception as e:  # noqa: BLE001
                     obs["errors"].append(f"send_callback raised {type(e).__name__}: {e}")
@@ -351,7 +364,10 @@ def judge(case, ctx):
     for name, kw in variants.items():
         if ctx:
             ctx.mon(name)
-        dec = c2.C2Http(cfg, **kw)
+        try:
+            dec = c2.C2Http(cfg, **kw)
+        except Exception as e:  # noqa: BLE001
+            return (name, f"[{name}] decoder construction for a well-formed HTTP configuration raised {type(e).__name__}: {e}", None)
         got = decode_trace(dec, trace, model, "rsa_private_key" in kw, c2)
         exp = expected_trace(trace, client, peer, obs, "rsa_private_key" in kw)
         if name == "trace.aes_noverify" and case["seed"] % 4:
@@ -398,7 +414,7 @@ def check_case(case, ctx):
     hist = case["history"]
     nt = any(ev[0] in ("callback", "multi") or (ev[0] == "checkin" and ev[1][0] == "task") for ev in hist)
     ctx.ok(fp=(case["seed"], case["key"], repr(hist)), nontrivial=nt, case={k: v for k, v in case.items()},
-           classes=(f"key:{case['key'][:7]}", f"uri_append:{case['allow_uri']}", *{f"ev:{ev[0]}{':' + ev[1][0] if ev[0] == 'checkin' else ''}" for ev in hist}))
+           classes=(f"key:{case['key'][:7]}", f"uri_append:{case['allow_uri']}", f"layout:{case.get('legacy') or 'current'}", *{f"ev:{ev[0]}{':' + ev[1][0] if ev[0] == 'checkin' else ''}" for ev in hist}))
 
 
 def _attribute_uri(case, r, c2):
@@ -471,7 +487,7 @@ def run_shard(shard, ctx):
         if ctx.out_of_time():
             break
         case = {"seed": rng.getrandbits(32), "key": rng.choice(["rsa1024_a", "rsa1024_b", "rsa2048_a"]), "allow_uri": rng.random() < 0.15,
-                "beacon_id": rng.randrange(0, 2**31), "history": gen_history(rng)}
+                "beacon_id": rng.randrange(0, 2**31), "history": gen_history(rng), "legacy": rng.choice([None, None, None, "pre4.0", "pre3.5"])}
         check_case(case, ctx)
 
 
